@@ -164,8 +164,8 @@ theorem reach_sound {c : Cfg} {s s' : St} {tr : List Ev} {o : Out} (hx : Exec c 
   | @ifcodeT t e s tr s' o hc _ ih =>
     intro S hok hs
     simp only [reach, Bool.and_eq_true] at hok
-    have hm : s.apply (.code .bad) ∈
-        uni ((S.filter fun s => s.code != .ok).map fun s => s.apply (.code .bad)) [] := by
+    have hm : s.apply (.test .bad) ∈
+        uni ((S.filter fun s => s.code != .ok).map fun s => s.apply (.test .bad)) [] := by
       refine mem_uni.mpr (Or.inl (List.mem_map.mpr ⟨s, ?_, rfl⟩))
       simp [List.mem_filter, hs, hc]
     have h1 := ih _ hok.1 hm
@@ -177,8 +177,8 @@ theorem reach_sound {c : Cfg} {s s' : St} {tr : List Ev} {o : Out} (hx : Exec c 
   | @ifcodeF t e s tr s' o hc _ ih =>
     intro S hok hs
     simp only [reach, Bool.and_eq_true] at hok
-    have hm : s.apply (.code .ok) ∈
-        uni ((S.filter fun s => s.code != .bad).map fun s => s.apply (.code .ok)) [] := by
+    have hm : s.apply (.test .ok) ∈
+        uni ((S.filter fun s => s.code != .bad).map fun s => s.apply (.test .ok)) [] := by
       refine mem_uni.mpr (Or.inl (List.mem_map.mpr ⟨s, ?_, rfl⟩))
       simp [List.mem_filter, hs, hc]
     have h1 := ih _ hok.2 hm
